@@ -1777,6 +1777,21 @@ class Interp:
                     base.append(fill if isinstance(fill, (bool, int, float, str)) else _c.deepcopy(fill))
                 return ()
             raise Unknown("resize of %r to %r" % (base, n_))
+        if gen == "alloc::vec::Vec::<T, A>::resize_with":
+            base = self.ev(args[0], env, depth)
+            base = base.get() if isinstance(base, Ref) else base
+            n_ = self.ev(args[1], env, depth)
+            mk = self.ev(args[2], env, depth)
+            if isinstance(base, list) and isinstance(n_, int) and 0 <= n_ <= 4096:
+                if n_ < len(base):
+                    del base[n_:]
+                while len(base) < n_:
+                    if isinstance(mk, PyFn) and mk.path.endswith("Default::default") and self.facts.bodies.get(mk.path) is None:
+                        base.append(self.default_of((e.get("targs") or [""])[0], depth))
+                    else:
+                        base.append(self.call_callable(mk, [], depth))
+                return ()
+            raise Unknown("resize_with of %r to %r" % (base, n_))
         OPS = {"core::ops::arith::Add::add": "Add", "core::ops::arith::Sub::sub": "Sub", "core::ops::arith::Mul::mul": "Mul", "core::ops::arith::Div::div": "Div",
                "core::ops::arith::Rem::rem": "Rem", "core::ops::bit::Shl::shl": "Shl", "core::ops::bit::Shr::shr": "Shr"}
         if gen in OPS and len(args) == 2 and self.facts.bodies.get(cal) is None:
